@@ -118,13 +118,15 @@ pub struct RunOut {
     pub ops_done: usize,
     pub model: Model,
     pub root: String,
+    /// model the run started from (default unless it continued a recovered image)
+    pub initial_model: Model,
 }
 
 impl RunOut {
     /// Model after the first j records (S_j), for all j.
     pub fn prefix_models(&self) -> Vec<Model> {
         let mut out = Vec::with_capacity(self.records.len() + 1);
-        let mut m = Model::default();
+        let mut m = self.initial_model.clone();
         out.push(m.clone());
         for r in &self.records {
             apply_rec(&mut m, &r.rec);
@@ -870,9 +872,9 @@ impl<'a> Exec<'a> {
             }
             let rd = self.full_read().unwrap_or_default();
             if rd != before_read {
-                let class = if rd.iter().any(|r| r.is_err()) {
+                let class = if rd.iter().chain(before_read.iter()).any(|r| r.is_err()) {
                     let fam = if self.family_lower { "lower-term-family" } else { "monotone-family" };
-                    format!("read-err:{fam}:{}", rd.iter().find_map(|r| r.as_ref().err()).unwrap())
+                    format!("read-err:{fam}:{}", rd.iter().chain(before_read.iter()).find_map(|r| r.as_ref().err()).unwrap())
                 } else {
                     "restart:entries-differ".to_string()
                 };
@@ -960,6 +962,7 @@ pub fn run_spec(spec: &Spec, or: &Oracles, root: &str) -> RunOut {
 /// Run one spec in an existing directory (e.g. a recovered crash image) whose contents
 /// correspond to `model`.
 pub fn run_spec_in(spec: &Spec, or: &Oracles, root: &str, model: Model) -> RunOut {
+    let initial_model = model.clone();
     core::begin(EpisodeCfg { root: root.to_string(), chooser: chooser_of(&spec.sched), faults: spec.faults.clone(), flush_batch: spec.flush_batch });
     let mut ex = Exec {
         spec,
@@ -980,7 +983,8 @@ pub fn run_spec_in(spec: &Spec, or: &Oracles, root: &str, model: Model) -> RunOu
         max_id_ever: None,
         family_lower: false,
         caller_errors: 0,
-        faulty: !spec.faults.is_empty(),
+        // short transfers and EINTR are legal behaviours, not errors: no oracle is relaxed for them
+        faulty: spec.has_real_faults(),
         cur_op: -1,
         aux: Rng::new(spec.run_seed ^ 0xA5A5_5A5A_1234_5678),
         worker_dead_seen: false,
@@ -1055,6 +1059,7 @@ pub fn run_spec_in(spec: &Spec, or: &Oracles, root: &str, model: Model) -> RunOu
         ops_done,
         model: ex.model,
         root: root.to_string(),
+        initial_model,
     }
 }
 
@@ -1257,5 +1262,6 @@ pub fn run_contenders(spec: &Spec, root: &str) -> RunOut {
         ops_done: 1,
         model: Model::default(),
         root: root.to_string(),
+        initial_model: Model::default(),
     }
 }
